@@ -6,12 +6,18 @@ from . import model
 Action = namedtuple("Action", ["action", "params"])
 
 
+class PatchError(model.ModelError):
+    """ A patch rule is malformed or does not apply; reported through prophyc's error channel. """
+
+
 def parse(filename):
     patches = defaultdict(list)
     with codecs.open(filename, "r", encoding="utf-8") as f:
         for line in f.readlines():
             if line.strip():
                 words = line.split()
+                if len(words) < 2:
+                    raise PatchError("Malformed patch rule (expected '<NAME> <ACTION> ...'): %s" % line.strip())
                 name, action = words[:2]
                 params = words[2:]
                 patches[name].append(Action(action, params))
@@ -29,22 +35,22 @@ def _apply(node, patches):
     for patch_ in patches:
         action = _actions.get(patch_.action)
         if not action:
-            raise Exception("Unknown action: %s %s" % (node.name, patch_))
+            raise PatchError("Unknown action: %s %s" % (node.name, patch_))
         node = action(node, patch_)
     return node
 
 
 def _type(node, patch_):
     if not isinstance(node, model.Struct):
-        raise Exception("Can change field only in struct: %s %s" % (node.name, patch_))
+        raise PatchError("Can change field only in struct: %s %s" % (node.name, patch_))
 
     if len(patch_.params) != 2:
-        raise Exception("Change field must have 2 params: %s %s" % (node.name, patch_))
+        raise PatchError("Change field must have 2 params: %s %s" % (node.name, patch_))
     name, tp = patch_.params
 
     i, member = next((x for x in enumerate(node.members) if x[1].name == name), (None, None))
     if not member:
-        raise Exception("Member not found: %s %s" % (node.name, patch_))
+        raise PatchError("Member not found: %s %s" % (node.name, patch_))
 
     mem = node.members[i]
     mem.type_name = tp
@@ -53,14 +59,14 @@ def _type(node, patch_):
 
 def _insert(node, patch_):
     if not isinstance(node, model.Struct):
-        raise Exception("Can insert field only in struct: %s %s" % (node.name, patch_))
+        raise PatchError("Can insert field only in struct: %s %s" % (node.name, patch_))
 
     if len(patch_.params) != 3:
-        raise Exception("Change field must have 3 params: %s %s" % (node.name, patch_))
+        raise PatchError("Change field must have 3 params: %s %s" % (node.name, patch_))
     index, name, tp = patch_.params
 
     if not _is_int(index):
-        raise Exception("Index is not a number: %s %s" % (node.name, patch_))
+        raise PatchError("Index is not a number: %s %s" % (node.name, patch_))
     index = int(index)
 
     node.members.insert(index, model.StructMember(name, tp))
@@ -69,15 +75,15 @@ def _insert(node, patch_):
 
 def _remove(node, patch_):
     if not isinstance(node, model.Struct):
-        raise Exception("Can remove field only in struct: %s %s" % (node.name, patch_))
+        raise PatchError("Can remove field only in struct: %s %s" % (node.name, patch_))
 
     if len(patch_.params) != 1:
-        raise Exception("Remove field must have 1 param: %s %s" % (node.name, patch_))
+        raise PatchError("Remove field must have 1 param: %s %s" % (node.name, patch_))
     name, = patch_.params
 
     i, member = next((x for x in enumerate(node.members) if x[1].name == name), (None, None))
     if not member:
-        raise Exception("Member not found: %s %s" % (node.name, patch_))
+        raise PatchError("Member not found: %s %s" % (node.name, patch_))
 
     del node.members[i]
     return node
@@ -85,19 +91,19 @@ def _remove(node, patch_):
 
 def _dynamic(node, patch_):
     if not isinstance(node, model.Struct):
-        raise Exception("Can change field only in struct: %s %s" % (node.name, patch_))
+        raise PatchError("Can change field only in struct: %s %s" % (node.name, patch_))
 
     if len(patch_.params) != 2:
-        raise Exception("Change field must have 2 params: %s %s" % (node.name, patch_))
+        raise PatchError("Change field must have 2 params: %s %s" % (node.name, patch_))
     name, len_name = patch_.params
 
     i, member = next((x for x in enumerate(node.members) if x[1].name == name), (None, None))
     if not member:
-        raise Exception("Member not found: %s %s" % (node.name, patch_))
+        raise PatchError("Member not found: %s %s" % (node.name, patch_))
 
     sizer_found = len(tuple(x for x in node.members[:i] if x.name == len_name))
     if not sizer_found:
-        raise Exception("Array len member not found: %s %s" % (node.name, patch_))
+        raise PatchError("Array len member not found: %s %s" % (node.name, patch_))
 
     mem = node.members[i]
     mem.bound = len_name
@@ -108,18 +114,18 @@ def _dynamic(node, patch_):
 
 def _greedy(node, patch_):
     if not isinstance(node, model.Struct):
-        raise Exception("Can change field only in struct: %s %s" % (node.name, patch_))
+        raise PatchError("Can change field only in struct: %s %s" % (node.name, patch_))
 
     if len(patch_.params) != 1:
-        raise Exception("Change field must have 1 params: %s %s" % (node.name, patch_))
+        raise PatchError("Change field must have 1 params: %s %s" % (node.name, patch_))
     name, = patch_.params
 
     i, member = next((x for x in enumerate(node.members) if x[1].name == name), (None, None))
     if not member:
-        raise Exception("Member not found: %s %s" % (node.name, patch_))
+        raise PatchError("Member not found: %s %s" % (node.name, patch_))
 
     if i != len(node.members) - 1:
-        raise Exception("Greedy array must be the last member: %s %s" % (node.name, patch_))
+        raise PatchError("Greedy array must be the last member: %s %s" % (node.name, patch_))
 
     mem = node.members[i]
     mem.greedy = True
@@ -131,18 +137,18 @@ def _greedy(node, patch_):
 
 def _static(node, patch_):
     if not isinstance(node, model.Struct):
-        raise Exception("Can change field only in struct: %s %s" % (node.name, patch_))
+        raise PatchError("Can change field only in struct: %s %s" % (node.name, patch_))
 
     if len(patch_.params) != 2:
-        raise Exception("Change field must have 2 params: %s %s" % (node.name, patch_))
+        raise PatchError("Change field must have 2 params: %s %s" % (node.name, patch_))
     name, size = patch_.params
 
     i, member = next((x for x in enumerate(node.members) if x[1].name == name), (None, None))
     if not member:
-        raise Exception("Member not found: %s %s" % (node.name, patch_))
+        raise PatchError("Member not found: %s %s" % (node.name, patch_))
 
     if _is_int(size) and int(size) <= 0:
-        raise Exception("Array size must be positive: %s %s" % (node.name, patch_))
+        raise PatchError("Array size must be positive: %s %s" % (node.name, patch_))
 
     node.members[i].bound = None
     node.members[i].size = None
@@ -156,23 +162,23 @@ def _static(node, patch_):
 
 def _limited(node, patch_):
     if not isinstance(node, model.Struct):
-        raise Exception("Can change field only in struct: %s %s" % (node.name, patch_))
+        raise PatchError("Can change field only in struct: %s %s" % (node.name, patch_))
 
     if len(patch_.params) != 2:
-        raise Exception("Change field must have 2 params: %s %s" % (node.name, patch_))
+        raise PatchError("Change field must have 2 params: %s %s" % (node.name, patch_))
     name, len_array = patch_.params
 
     i, member = next((x for x in enumerate(node.members) if x[1].name == name), (None, None))
     if not member:
-        raise Exception("Member not found: %s %s" % (node.name, patch_))
+        raise PatchError("Member not found: %s %s" % (node.name, patch_))
 
     sizer_found = len(tuple(x for x in node.members[:i] if x.name == len_array))
     if not sizer_found:
-        raise Exception("Array len member not found: %s %s" % (node.name, patch_))
+        raise PatchError("Array len member not found: %s %s" % (node.name, patch_))
 
     mem = node.members[i]
     if not mem.size:
-        raise Exception("Limited array must be a fixed array to begin with: %s %s" % (node.name, patch_))
+        raise PatchError("Limited array must be a fixed array to begin with: %s %s" % (node.name, patch_))
     mem.bound = len_array
     mem.optional = False
     return node
@@ -180,10 +186,10 @@ def _limited(node, patch_):
 
 def _struct(node, patch_):
     if not isinstance(node, model.Union):
-        raise Exception("Can only change union to struct: %s" % node.name)
+        raise PatchError("Can only change union to struct: %s" % node.name)
 
     if len(patch_.params):
-        raise Exception("Change union to struct takes no params: %s" % node.name)
+        raise PatchError("Change union to struct takes no params: %s" % node.name)
 
     def to_struct_member(member):
         return model.StructMember(name=member.name, type_name=member.type_name, definition=member.definition)
@@ -198,10 +204,10 @@ def _rename(node, patch_):
 
     def rename_field(node_, orig_name, new_name):
         if not isinstance(node_, (model.Struct, model.Union)):
-            raise Exception("Can rename fields only in composites: %s %s" % (node_.name, patch_))
+            raise PatchError("Can rename fields only in composites: %s %s" % (node_.name, patch_))
         member = next((x for x in node_.members if x.name == orig_name), None)
         if not member:
-            raise Exception("Member not found: %s %s" % (node_.name, patch_))
+            raise PatchError("Member not found: %s %s" % (node_.name, patch_))
         member.name = new_name
         return node_
 
@@ -211,7 +217,7 @@ def _rename(node, patch_):
     if len(patch_.params) == 2:
         return rename_field(node, patch_.params[0], patch_.params[1])
 
-    raise Exception("Rename must have 1 or 2 params: %s %s" % (node.name, patch_))
+    raise PatchError("Rename must have 1 or 2 params: %s %s" % (node.name, patch_))
 
 
 _actions = {
